@@ -10,7 +10,7 @@ from rv import oracles as O, gen
 
 LEVEL = "exploration"
 RULE = ("bounded-exhaustive: every arrival sequence of <= 4 (thorough 5) items over 0..C, C in {4,6,7}, and every multiset of <= 6 (7) items for the decreasing variants (completion in grid_exhaustive_complete_shards); then first-fit, best-fit, FFD, BFD in every arrival order (random, ascending, descending, big-small alternation) on random, hardpack, repeat, threshold, zeros, equal classes "
-        "(ints and dyadic fractions), the FFD non-monotonicity examples, and planted perfect packings up to 200 items; non-trivial = >= 3 bins; distinct on (algorithm, binsize, value sequence)")
+        "(ints and dyadic fractions), 1% many-bins cases (300-1500 items, several hundred bins), the FFD non-monotonicity examples, and planted perfect packings up to 200 items; non-trivial = >= 3 bins; distinct on (algorithm, binsize, value sequence)")
 ASSUMPTIONS = ["OPT from O2 for n <= 12, from the planted construction otherwise; instances with neither only get the any-fit invariant"]
 FLOORS = {"quick": {"distinct_nontrivial": 20000, "with_opt": 5000}, "thorough": {"distinct_nontrivial": 100000, "with_opt": 25000}}
 ALGS = ("ff", "bf", "ffd", "bfd")
@@ -84,6 +84,9 @@ def draw(rng, alg):
         Cs, v, m = gen.planted_packing(rng, m, rng.choice([10, 30, 100, 1000]))
         order = rng.choice(gen.ORDERS)
         return {"kind": "pack", "alg": alg, "C": Cs, "values": gen.arrange(rng, v, order), "cls": "planted", "order": order, "planted_opt": m, "pres": "list", "pres_seed": 0}
+    if rng.random() < 0.01:
+        Cs, v = gen.pack_instance(rng, "manybins")
+        return {"kind": "pack", "alg": alg, "C": Cs, "values": v, "cls": "manybins", "order": "random", "pres": "list", "pres_seed": 0}
     case = C.draw_pack_case(rng, alg=alg, pres="list", nmax=rng.choice([8, 12, 12, 30, 100]))
     return case
 
